@@ -103,7 +103,7 @@ PROPS = {
                      "several RI ids on one image: every id is released before GRend (GRend with ids outstanding is not exercised); GRsetcompress/GRsetchunk only before the first data"],
     ),
     "C07": dict(
-        lean_props=["H4.Props.C07", "H4.Props.C07Fn", "H4.Props.C07Fn3"],
+        lean_props=["H4.Props.C07", "H4.Props.C07Fn", "H4.Props.C07Fn3", "H4.Props.C07Fld"],
         engines=[
             E("vs", "e_vs.c", model="vs", quick=dict(cases=400, chunk=25), thorough=dict(cases=4000, seeds=4, chunk=50, timeout=1800)),
         ],
@@ -111,7 +111,8 @@ PROPS = {
                       "data element (DFTAG_VS, possibly linked-block) modelled as a growable byte array with a position: C01's business",
                       "VH unpacking (vunpackvs) of the write list after Hclose/Hopen is exercised by the engine, not modelled here (the record codec is C02's); the packing side vpackvs and the reading side vunpackvs are proved at function level (H4.Props.C07Fn, C07Fn3) against H4.Format.vpackvs / vunpackvs"],
         assumptions=["little-endian host; DFKNTsize(t) = DFKNTsize(t|DFNT_NATIVE) for all number types (generated tables NT_SIZES/NT_NSIZES, checked by lemma nt_tables)",
-                     "field names are not the reserved symbols PX..NZ; seeks stay within the records written"],
+                     "seeks stay within the records written",
+                     "function-level tie of VSfdefine / VSsetfields (H4.Props.C07Fld): scanattrs (vparse.c) and the atom lookups are outside the translated text - their results are parameters, quantified over; malloc / realloc / strdup never fail; field names are C strings of single-byte characters"],
     ),
     "C08": dict(
         lean_props=["H4.Props.C08", "H4.Props.C08Fn", "H4.Props.C08Fn2", "H4.Props.C08Fn3"],
@@ -172,7 +173,7 @@ PROPS = {
                      "attribute names are non-empty and contain no NUL or comma; dimension names set by the user do not start with \"fakeDim\" (known finding otherwise)"],
     ),
     "C20": dict(
-        lean_props=["H4.Props.C20", "H4.Props.C12Fn2"],
+        lean_props=["H4.Props.C20", "H4.Props.C12Fn2", "H4.Props.C20Fld"],
         engines=[
             E("limits", "e_limits.c", model="limits", cflags=["-fwrapv", "-fno-sanitize=signed-integer-overflow"],
               quick=dict(cases=320, chunk=10, timeout=1200), thorough=dict(cases=3200, seeds=2, chunk=20, timeout=2400)),
